@@ -25,7 +25,7 @@ structure Contracts (C : Cfg) (sp : ObjSpec) (cov : Coverage) : Prop where
   copy : ∀ o, FromC sp o o.copyCtor id
   move : ∀ o, MoveC sp o o.moveCtor
   cassign : ∀ t o, t.cls = o.cls → CAssignC sp t o (t.copyAssign o)
-  massign : ∀ t o, t.cls = o.cls → MAssignC sp t o (t.moveAssign o)
+  massign : ∀ t o, t.cls = o.cls → MAssignC sp t o (t.moveAssign C.kll.moveAssignResetsSource o)
   selfmove : ∀ o, MutC sp o o.selfMoveAssign id
   newTable : cov.theta → ∀ lgK rf theta0, C.theta.minLgK ≤ lgK →
     NewC sp (Theta.ctor (Theta.startingSubMultiple (lgK + 1) C.theta.minLgK rf) lgK rf theta0) Obj.table
@@ -194,7 +194,7 @@ theorem step_safe (ct : Contracts C sp cov) {w : World} (hw : WorldInv sp w) (op
       by_cases hc : d.obj.cls = s.obj.cls
       · refine StepOK.bind (glue_massign hw hd hs hu hne (ct.massign d.obj s.obj hc)) ?_
         intro ⟨r, h⟩ hp; exact hp
-      · have : runM w (d.obj.moveAssign s.obj) = .error (.bad "assignment between different classes") := by
+      · have : runM w (d.obj.moveAssign C.kll.moveAssignResetsSource s.obj) = .error (.bad "assignment between different classes") := by
           unfold runM
           cases hd' : d.obj <;> cases hs' : s.obj <;> simp_all [Obj.cls, Obj.moveAssign, fail]
         rw [this]; trivial
